@@ -249,8 +249,9 @@ def generate(rng, tier):
         if form in ("list", "dict"):
             pass
         scheme = "https" if rng.random() < 0.2 else "http"
+        host = 0 if (i == 1 and rng.random() < 0.3) else i       # (two independent connections to one address)
         ops.append({"op": "mk", "kind": "base", "node": len(nodes), "impl": i,
-                    "addr": f"{scheme}://h{i}.test:80{i}0" + rng.choice(["", "", "", "/base", "/a/b"]),
+                    "addr": f"{scheme}://h{host}.test:80{host}0" + rng.choice(["", "", "", "/base", "/a/b"]),
                     "form": form, "ids": ids})
         nodes.append(_GNode("base", False, i, born=len(ops)))
     long_run = rng.random() < 0.04
